@@ -90,6 +90,11 @@ class WcMatch(Generic[AnyStr]):
         empty = os.fsencode('') if isinstance(root_dir, bytes) else ''
         self.pattern_file = file_pattern if file_pattern is not None else empty  # type: AnyStr
         self.pattern_folder_exclude = exclude_pattern if exclude_pattern is not None else empty  # type: AnyStr
+        for pattern in (self.pattern_file, self.pattern_folder_exclude):
+            if isinstance(pattern, (str, bytes)) and isinstance(pattern, bytes) != self.is_bytes:
+                raise TypeError(
+                    f"Patterns and root_dir should be of the same type, not {type(pattern)} and {type(root_dir)}"
+                )
         self.file_check = None  # type: _wcmatch.WcRegexp[AnyStr] | None
         self.folder_exclude_check = None  # type: _wcmatch.WcRegexp[AnyStr] | None
         self.on_init(**kwargs)
